@@ -87,7 +87,8 @@ func genCase(t *rapid.T, flavour string, maxSteps int) *caseSpec {
 			l += 4
 		}
 	}
-	n := rapid.SampledFrom(ladder).Draw(t, "n")
+	// (even SampledFrom prefers low indexes - about 45% of the draws hit the first four rungs - so the larger of two draws is used)
+	n := max(rapid.SampledFrom(ladder).Draw(t, "n"), rapid.SampledFrom(ladder).Draw(t, "n2"))
 	for i := 0; i < n; i++ {
 		a := action{Kind: rapid.SampledFrom(kinds).Draw(t, "kind")}
 		switch a.Kind {
